@@ -1206,10 +1206,23 @@ EXPECTED_DEFER = ['resolve_grammar_type', 'Type::size', 'Type::alignment', 'Regi
                   'ItemDefinition::size', 'ItemDefinition::alignment', 'get_region_name_and_type_definition', 'vftable::build', 'region_name_and_vftable']
 
 
+# how many rejections of each kind the statement of C03 calls for (one each; the declared size is compared once)
+OWN_MULTIPLICITY = {t: 1 for t, _m, _c in EXPECTED_OWN}
+
+
 def census(ctx, A):
+    sites = {}
     for fn in (A['TDB'], A['RR']):
         for ok, key, what, where in _census_fn(ctx, fn, [], 0, True):
             ctx.ob(['C03', 'C10'], 'R-CENSUS', key, ok, what, where)
+            if ok and key.startswith('own|'):
+                sites.setdefault(key.split('|')[-1], set()).add(where)
+    # a second rejection of a kind that the statement calls for once is a rejection under other conditions than the reviewed
+    # one (an "early" alignment test that forgets the packed exemption): the description it rejects may be realisable
+    for tag, ws in sorted(sites.items()):
+        ctx.ob(['C03'], 'R-CENSUS', 'own-count|%s' % tag, len(ws) <= OWN_MULTIPLICITY.get(tag, 1),
+               'rejections of kind `%s`: %d site(s), the statement calls for %d: %s' % (tag, len(ws), OWN_MULTIPLICITY.get(tag, 1), sorted(ws)[:3]), sorted(ws)[-1] if ws else '',
+               nontrivial=len(ws) > OWN_MULTIPLICITY.get(tag, 1))
     # the other way to get rid of a description: "not yet" (Ok(None)).  A type is deferred only because something it depends on has
     # no size / is not resolved yet; any other deferral leaves a resolvable type unresolved for ever (the build then fails with
     # "type resolution will not terminate")
